@@ -64,7 +64,7 @@ GenInit == Init /\ hist = <<>>
 GenNext ==
     \/ /\ More
        /\ \/ \E w \in Writers, id \in Ids, s \in BOOLEAN, sz \in Sizes : GAdd(w, id, s, sz)
-          \/ \E dst, src \in Replicas : \E B \in BatchesOf(StoreSet(rep[src]) \ {Root}, MaxBatch) :
+          \/ \E dst, src \in Replicas : \E B \in BatchesOf(rep[src].store, MaxBatch) :
                  \E p \in BOOLEAN : GDeliver(dst, src, B, p)
           \/ \E r \in Replicas : GReopen(r)
     \/ GPad
